@@ -4,3 +4,5 @@ import AioMySensors.Properties.C01
 import AioMySensors.Properties.C02
 import AioMySensors.Properties.C03
 import AioMySensors.Properties.C18
+import AioMySensors.Properties.C05
+import AioMySensors.Properties.C17
